@@ -144,7 +144,7 @@ def closed_port():
 
 # ----------------------------------------------------------------------------- proxy under test
 @contextlib.contextmanager
-def running_proxy(mode, workers=1, extra=()):
+def running_proxy(mode, workers=1, extra=(), **opts):
     """mode: 'threaded' | 'local' | 'remote'"""
     import proxy
     args = ['--hostname', HOST, '--port', '0', '--num-acceptors', str(workers if mode != 'remote' else 1),
@@ -158,7 +158,7 @@ def running_proxy(mode, workers=1, extra=()):
     args += list(extra)
     lvl = logging.root.manager.disable
     logging.disable(logging.CRITICAL)
-    p = proxy.Proxy(args)
+    p = proxy.Proxy(args, **opts)
     try:
         p.setup()
         try:
@@ -402,7 +402,8 @@ def conversation_corpus(oport):
         ('refused', [b'GET http://%s:%d/ HTTP/1.1\r\nHost: x\r\n\r\n' % (H, dead)], {}),
         ('tunnel_refused', [b'CONNECT %s:%d HTTP/1.1\r\nHost: x\r\n\r\n' % (H, dead)], {}),
         ('bad_request', [b'NONSENSE\r\n\r\n'], {}),
-        ('no_plugin_for_origin_form', [b'GET /not-a-proxy-request HTTP/1.1\r\nHost: x\r\n\r\n'], {}),
+        ('web_404', [b'GET /not-a-proxy-request HTTP/1.1\r\nHost: x\r\n\r\n'], {}),
+        ('reverse', [b'GET /rev/abc HTTP/1.1\r\nHost: x\r\nX-Tag: reverse\r\n\r\n'], {}),
         ('upstream_reset', [b'GET http://%s:%d/reset HTTP/1.1\r\nHost: x\r\nX-Tag: upstream_reset\r\n\r\n' % (H, oport)], {}),
         ('client_half_close', [b'GET http://%s:%d/canary/4 HTTP/1.1\r\nHost: x\r\nX-Tag: client_half_close\r\n\r\n' % (H, oport)], dict(half_close=True)),
         ('keepalive_two', [b'GET http://%s:%d/keep/1 HTTP/1.1\r\nHost: x\r\nX-Tag: keepalive_two\r\n\r\n' % (H, oport), ('expect', b'keep-1'),
@@ -415,9 +416,25 @@ def normalise_reply(b):
     return b
 
 
+_REV = None
+def live_reverse_plugin(oport):
+    """reverse proxy route /rev/... -> the loopback origin"""
+    global _REV
+    from proxy.http.server import ReverseProxyBasePlugin
+    if _REV is None:
+        class LiveReversePlugin(ReverseProxyBasePlugin):
+            target = b''
+            def routes(self):
+                return [(r'/rev/(.*)$', [LiveReversePlugin.target])]
+        _REV = LiveReversePlugin
+    _REV.target = b'http://%s:%d/canary/77' % (HOST.encode(), oport)
+    return _REV
+
+
 def _c17_run_mode(rng, origin, corpus, mode, w, concurrent):
     """all conversations of the corpus through one proxy instance; returns {name: transcript}"""
-    with running_proxy(mode, workers=w) as p:
+    with running_proxy(mode, workers=w, extra=('--enable-web-server', '--enable-reverse-proxy'),
+                       plugins=[live_reverse_plugin(origin.port)]) as p:
         pport = p.flags.port
         time.sleep(0.5)
         # let freshly forked workers settle: one throw-away request per worker
